@@ -264,6 +264,8 @@ def parse_operand_list(sc, close):
 
 
 def parse_rvalue(text):
+    if text.lstrip().startswith("no_retag "):
+        text = text.lstrip()[len("no_retag "):]
     sc = Scanner(text)
     sc.ws()
     # references
@@ -797,6 +799,41 @@ if __name__ == "__main__":
     print("allocs", {k: v["size"] for k, v in al.items()})
 
 
+def parse_alloc_block(lines, i):
+    """lines[i] is an `allocN (...) {` header; returns (name, info, next index)"""
+    ln = lines[i]
+    m = re.match(r"^(alloc\d+) \((?:static: ([^,]+), )?size: (\d+), align: (\d+)\) \{(.*)$", ln)
+    name = m.group(1)
+    size = int(m.group(3))
+    data = []
+    relocs = {}
+    if m.group(5).strip().endswith("}"):
+        return name, {"size": size, "bytes": [], "relocs": {}, "static": m.group(2)}, i + 1
+    i += 1
+    n = len(lines)
+    while i < n and lines[i].strip() != "}":
+        row = lines[i]
+        body = row.split("\u2502")
+        hexpart = body[1] if len(body) >= 3 else body[0]
+        for t in hexpart.split():
+            if re.fullmatch(r"[0-9a-f]{2}", t):
+                data.append(int(t, 16))
+            elif t == "__":
+                data.append(None)
+            elif t.startswith("\u257e"):
+                mm = re.search(r"(alloc\d+)(?:\+0x([0-9a-f]+))?", t)
+                if not mm:
+                    raise MirSyntaxError("reloc %r" % t)
+                relocs[len(data)] = (mm.group(1), int(mm.group(2) or "0", 16))
+                data.extend([None] * 8)
+            elif set(t) <= set("\u2591"):
+                pass
+            else:
+                raise MirSyntaxError("alloc token %r in %r" % (t, row))
+        i += 1
+    return name, {"size": size, "bytes": data[:size] if len(data) >= size else data, "relocs": relocs, "static": m.group(2)}, i + 1
+
+
 class MirIndex:
     """Lazy index over a (large) MIR dump: functions are located by header and parsed on demand."""
 
@@ -832,6 +869,20 @@ class MirIndex:
     def candidates(self, last):
         return self.by_last.get(last, [])
 
+    def find_alloc(self, name):
+        key = ("alloc", name)
+        if key in self.cache:
+            return self.cache[key]
+        m = re.search(r"^%s \(" % re.escape(name), self.text, re.M)
+        if not m:
+            self.cache[key] = None
+            return None
+        end = self.text.find("\n}\n", m.start())
+        lines = self.text[m.start():end + 3].split("\n")
+        _, info, _ = parse_alloc_block(lines, 0)
+        self.cache[key] = info
+        return info
+
     def get_named_const(self, owner, name):
         c = self.named_consts.get((owner, name), [])
         if len(c) != 1:
@@ -859,6 +910,8 @@ class MirIndex:
             seg = "fn %s() -> %s {\n%s" % (mm.group(1), mm.group(2), rest)
         fs, _ = parse_mir(seg)
         fn = list(fs.values())[0] if fs else None
+        if fn is not None:
+            fn.alloc_ns = self
         self.cache[start] = fn
         return fn
 
